@@ -92,6 +92,17 @@ fn rr(ctx: &mut Ctx, dial: bool) {
     let v6: Vec<bool> = (0..k).map(|_| dial && ctx.plan(4) == 0).collect();
     // one peer leaves after the judged sends (PUSH/DEALER with >= 2 peers, one case in three)
     let depart: Option<usize> = if k >= 2 && ctx.plan(3) == 0 { Some(ctx.plan(k as u64) as usize) } else { None };
+    // what the peers announce: nothing, an Identity property that is present but empty (what
+    // libzmq sends by default), or distinct identities - the rotation is over connections, whatever
+    // they call themselves
+    let idents: Vec<Option<Vec<u8>>> = (0..k)
+        .map(|i| match ctx.plan(4) {
+            0 => None,
+            1 => Some(Vec::new()),
+            2 => Some(format!("rr{i}").into_bytes()),
+            _ => Some(vec![0, i as u8 + 1]),
+        })
+        .collect();
     let st = Rc::new(RefCell::new(St::default()));
     st.borrow_mut().conns = vec![None; k];
     let s2 = st.clone();
@@ -103,6 +114,8 @@ fn rr(ctx: &mut Ctx, dial: bool) {
         let dial_eps: Vec<String> = (0..k).map(|i| if v6[i] { format!("tcp://[::1]:{}", 21000 + i) } else { format!("tcp://127.0.0.1:{}", 21000 + i) }).collect();
         for i in 0..k {
             let (ep, s3, start, stype) = (ep.clone(), s2.clone(), starts[i], stypes[i]);
+            let ident = idents[i].clone();
+            let ident2 = ident.clone();
             if dial {
                 let (lep, late_ms) = (dial_eps[i].clone(), late[i]);
                 rt::task::spawn_local("listener", async move {
@@ -113,7 +126,7 @@ fn rr(ctx: &mut Ctx, dial: bool) {
                     let Ok((l, _)) = world::RawListener::bind(&lep) else { return };
                     let Ok(mut peer) = l.accept().await else { return };
                     s3.borrow_mut().conns[i] = Some((peer.conn.clone(), 0, 1 - peer.side));
-                    if peer.hello(stype, None).await.is_err() {
+                    if peer.hello(stype, ident.as_deref()).await.is_err() {
                         return;
                     }
                     let _l = l;
@@ -128,7 +141,7 @@ fn rr(ctx: &mut Ctx, dial: bool) {
                 let Ok(mut peer) = RawPeer::connect(&ep) else { return };
                 let port = peer.s.local_addr().map(|a| a.port()).unwrap_or(0);
                 s3.borrow_mut().conns[i] = Some((peer.conn.clone(), port, 1 - peer.side));
-                if peer.hello(stype, None).await.is_err() {
+                if peer.hello(stype, ident2.as_deref()).await.is_err() {
                     return;
                 }
                 serve_peer(i, peer, kind, s3).await;
